@@ -838,6 +838,16 @@ fn case(g: &mut Gen) -> Outcome {
     with_world("c43", no_genesis, no_build, |w| run_case(g, w))
 }
 
+/// Minimal histories found while proving the check sensitive (each one exposes one deliberate
+/// breakage of the resource manager): burn then re-mint in one transaction; update of the immutable
+/// field; mint of a String id on the Integer resource.
+fn fixed_tapes() -> Vec<Vec<u8>> {
+    ["890d8000008000ed0000006d000000002800", "89070000000000e35600000000c0000000006e00009e", "000000000000002800eb"]
+        .iter()
+        .map(|h| hex::decode(h).unwrap())
+        .collect()
+}
+
 pub fn check() -> Check {
     Check::new(
         "C43",
@@ -846,6 +856,6 @@ pub fn check() -> Check {
     )
     .assume("initial data of the world's non-fungibles is read from the frozen world's data partition once per case; the holder of every id is tracked by the model (withdrawals are signed by all four accounts)")
     .assume("the representation of a burned id (entry without value) is only used to learn RUID ids that were minted and burned inside one transaction; the verdicts rest on transaction outcomes, returned values, the raw live entries and the vault scan")
-    .part(Part::new("histories", 5_000, 300_000, 700, case))
+    .part(Part::new("histories", 5_000, 300_000, 700, case).fixed(fixed_tapes()))
     .min_nontrivial_pct(15.0)
 }
